@@ -40,6 +40,31 @@ def _limit_switches(f):
     return sorted(set(sws))
 
 
+def _cut_length_problems(P, f, op, depth=2):
+    """the length a result table is cut to must be the statement's `limit` field: no constant and no arithmetic may stand in for it,
+    also not through a local helper that computes it"""
+    out = []
+    for o in F.origins(f, op, depth=12, through_calls=False):
+        if o.kind == "const":
+            out.append("the constant %s is used as the length" % (o.const.get("v") if o.const else "?"))
+        elif o.kind == "binop":
+            out.append("the length is computed with %s" % o.extra)
+        elif o.kind == "call":
+            keys = [k for k in P.callee_keys(f, o.call) if not P.fns[k].derived and P.fns[k].spath.startswith("sqlgrep::")]
+            for k in keys:
+                g = P.fns[k]
+                if depth <= 0:
+                    continue
+                inner = _cut_length_problems(P, g, 0, depth - 1)
+                fields_ok = any(oo.kind in ("arg", "place") and oo.place is not None and "limit" in place_fields(oo.place)
+                                for oo in F.origins(g, 0, depth=12, through_calls=False))
+                for m in inner:
+                    out.append("%s can return something else than LIMIT (%s)" % (g.path, m))
+                if not fields_ok:
+                    out.append("%s does not return the statement's limit field" % g.path)
+    return out
+
+
 def run(R):
     P = R.prog
     R.rule("C07.exit", "from the reached_limit==true edge of every executor no input-consuming call is reachable (all input loops are left)")
@@ -143,8 +168,16 @@ def run(R):
                         "with several partners can exceed the limit", [e.loc()])
         # aggregate result arm truncates
         ar = PR.calls_matching(ef, r"ExecutionEngine::execute_aggregate_result$")
-        if ar and [c for c in PR.calls_matching(ef, r"^alloc::vec::Vec::(truncate|drain)$") if c.bb in ef.reachable_from(ar[0].bb)]:
-            R.ok("C07.agg", "execute|agg-truncate", "the complete aggregate table is cut to `limit` rows", ar[0].loc())
+        cuts = [c for c in PR.calls_matching(ef, r"^alloc::vec::Vec::(truncate|drain)$") if ar and c.bb in ef.reachable_from(ar[0].bb)]
+        if ar and cuts:
+            problems = []
+            for c in cuts:
+                problems += _cut_length_problems(P, ef, c.args[1])
+            if problems:
+                R.violation("C07.agg", "execute|agg-cut-length", "the aggregate result is cut to a length that is not the statement's LIMIT: %s"
+                            % problems[0], [cuts[0].loc()])
+            else:
+                R.ok("C07.agg", "execute|agg-truncate", "the complete aggregate table is cut to `limit` rows", ar[0].loc())
         else:
             R.violation("C07.agg", "execute|agg-untruncated", "the batch aggregate result is not cut to the limit", [ef.loc()])
     # who reads `.limit`
